@@ -939,12 +939,13 @@ theorem finishSet_shape {cfg : Cfg} {st st0 : St} {id : Nat} {u u' : C16.User} {
 
 /-- the capability-changing commands: a failed save is visible in the reply -/
 theorem finishSet_shape_cap {cfg : Cfg} {st : St} {id : Nat} {u' : C16.User} :
-    FileShape st (finishSet cfg st id u').1 ∨ (finishSet cfg st id u').2 = false := by
+    FileShape st (finishSet cfg st id u').1 ∨
+      ((finishSet cfg st id u').2 = false ∧ (finishSet cfg st id u').1.usaved = st.usaved) := by
   unfold finishSet
   simp only []
   split
   · left; left; rfl
-  · right; rfl
+  · right; exact ⟨rfl, setUser_ufile cfg st id u'⟩
 
 /-! ### ids -/
 
@@ -1158,7 +1159,7 @@ def WildReg (st st' : St) : Prop :=
     st'.usaved = some { users := st.users ++ [(st.nextId + 1, { hashed := true })], nextId := st.nextId + 1 }
 
 def Shape (st : St) (c : Cmd) (r : St × Bool) : Prop :=
-  FileShape st r.1 ∨ WildReg st r.1 ∨ (c.capChanging = true ∧ r.2 = false)
+  FileShape st r.1 ∨ WildReg st r.1 ∨ (c.capChanging = true ∧ r.2 = false ∧ r.1.usaved = st.usaved)
 
 theorem shape_same (st : St) (c : Cmd) (b : Bool) : Shape st c (st, b) :=
   Or.inl (Or.inr ⟨rfl, userGrow_refl st⟩)
@@ -1190,7 +1191,7 @@ macro "shape_auto" hu:term : tactic => `(tactic|
     | exact Or.inl (Or.inr ⟨rfl, userGrow_of_users_eq rfl⟩)
     | (rcases finishSet_shape_cap with h | h
        · exact Or.inl h
-       · exact Or.inr (Or.inr ⟨rfl, h⟩)))))
+       · exact Or.inr (Or.inr ⟨rfl, h.1, h.2⟩)))))
 
 theorem body_shape (cfg : Cfg) (st : St) (pfx : Str) (c : Cmd) (hc : c ≠ .flushReload) (hr : c ≠ .reload) :
     Shape st c (body cfg st pfx c) := by
